@@ -17,8 +17,13 @@ NotBefore(c) == CASE c = "expired" -> -48 [] c = "notyet" -> 24 [] OTHER -> -1
 NotAfter(c)  == CASE c = "expired" -> -24 [] c = "notyet" -> 48 [] OTHER -> 24
 ChainOK(c) == c # "untrusted"
 TimeOK(c, clock) == clock >= NotBefore(c) /\ clock <= NotAfter(c)
-VerifyName(k) == IF k.itv # "" THEN k.itv ELSE k.server_name
-NameOK(c, k) == k.itv = "*" \/ VerifyName(k) = CertName(c)
+\* setsni: the caller built the hello and then called SetSNI(x) ("" = no such call).  SetSNI stores hostnameInSNI(x) in
+\* Config.ServerName: an IP literal or the empty string leaves NO name, and without a name (and without
+\* InsecureServerNameToVerify / InsecureSkipVerify) nothing may be accepted.
+NoName == {"-empty-", "192.0.2.10", "[2001:db8::1]"}
+EffName(k) == IF k.setsni = "" THEN k.server_name ELSE IF k.setsni \in NoName THEN "" ELSE k.setsni
+VerifyName(k) == IF k.itv # "" THEN k.itv ELSE EffName(k)
+NameOK(c, k) == k.itv = "*" \/ (VerifyName(k) # "" /\ VerifyName(k) = CertName(c))
 \* the first reason verification fails ("none" when it passes)
 WhyNot(c, k) == IF k.skip_verify THEN "none"
                 ELSE IF ~ChainOK(c) THEN "untrusted-root"
